@@ -110,11 +110,11 @@ func alphabet(thorough bool) []drive.Event {
 		req("create", "b", "k,ak,v", ix('k', "k"), ix('i', "ak", "a", "k")),
 		ins("a", M{"k": "1", "x": "p", "y": "q"}, M{"k": "2", "x": "p"}, M{"k": "3", "y": "r"}),
 		ins("b", M{"k": "1", "ak": "1", "v": "w"}, M{"k": "2"}),
-		req("alter_drop", "a", "y"),                     // trailing column dropped
-		req("alter_drop", "a", "x", ix('i', "x")),       // middle column dropped (with its index)
-		req("ensure", "a", "z", ix('u', "z")),           // new column + unique index (all values empty)
-		colRename("a", "k", "id"),                       // fk target column renamed
-		upd("a", M{"k": "2"}, M{"y": "s", "x": "o"}),    // new record version
+		req("alter_drop", "a", "y"),                  // trailing column dropped
+		req("alter_drop", "a", "x", ix('i', "x")),    // middle column dropped (with its index)
+		req("ensure", "a", "z", ix('u', "z")),        // new column + unique index (all values empty)
+		colRename("a", "k", "id"),                    // fk target column renamed
+		upd("a", M{"k": "2"}, M{"y": "s", "x": "o"}), // new record version
 		del("b", M{"k": "1"}),
 		view("v", "a join b"),
 		drop("b"),
